@@ -79,6 +79,15 @@ PROPS["C13"] = {
     "trusted_base": ["encoding/json Unmarshal/Marshal semantics as re-implemented in Model/Json.lean + Model/Audit.lean", "regexp (RE2) leftmost-first semantics for the two fence patterns as modelled by fenceCapture"],
     "partial": "the Gemini provider's retry loop (genai SDK) is not scripted; invalid UTF-8 in commit messages goes through the Go-side envelope oracle only",
 }
+PROPS["C07"] = {
+    "suites": [{"name": "crash", "quick": 0, "thorough": 0, "timeout": 3000}],
+    "required_theorems": ["C07_single_batch", "C07_crash_atomic", "C07_log_replay", "C07_history_crash_consistent",
+                          "C07_rebuild_crash_keeps_records", "C07_rebuild_crash_recordsOk", "C07_rebuild_repairs"],
+    "level_text": "Kernel-checked on the store model: every mutation except the rebuild commits at most one atomic batch, so every crash prefix of the batch log of ANY rebuild-free history is the state after a prefix of the operations and satisfies the index invariant; an interrupted rebuild never changes a record, and re-running the rebuild from ANY state with intact records restores the full invariant with the same records. Tie (fault enumeration validating the model): a child process is SIGKILLed before every write-type file-system call of short histories on a real directory and the reopened store must be the state after `acked` or `acked+1` operations with consistent indexes (raw key dump == the Lean model's key set); on a strict in-memory FS unsynced data is dropped after every acknowledged operation.",
+    "level_note": "PARTIAL: Pebble's commit pipeline (WAL record atomicity, MANIFEST handling, fsync semantics of a real disk) is trusted, not modelled; the theorem is about the store's USE of atomic batches. Trusted: Lean kernel, hooks H1 (FS injection) and VerifDB (raw key dump).",
+    "partial": "Pebble's WAL/manifest atomicity and real-disk sync semantics are trusted",
+    "trusted_base": ["pebble.Batch.Commit(Sync) is atomic and durable", "vfs.NewStrictMem drop-unsynced semantics / SIGKILL process-death semantics"],
+}
 _PENDING = "check not built yet in this round (planned: Lean model + theorems + differential, see DESIGN.md §5)"
 # entries with "unclaimed": True are runnable (./check Cxx) but not yet claimed in MANIFEST.json
 NOT_APPLICABLE = {p: _PENDING for p in ["C%02d" % i for i in range(1, 21)] if p not in PROPS or PROPS[p].get("unclaimed")}
